@@ -355,24 +355,84 @@ Definition spec_block_cards (ls : list string) : list (list string) :=
   | (pre, g :: gs) => (List.app pre g) :: gs
   end.
 
-(* S4 *)
-Fixpoint spec_blocks (ls : list string) (cur : list string) : list (list string) :=
+(* S4: the lines up to the first blank line, and what follows that blank line (None: no blank line) *)
+Fixpoint spec_cut (ls : list string) : list string * option (list string) :=
   match ls with
-  | [] => [cur]
-  | l :: r => if all_blank l then cur :: spec_blocks r [] else spec_blocks r (List.app cur [l])
+  | [] => ([], None)
+  | l :: r =>
+      if all_blank l then ([], Some r)
+      else let (b, t) := spec_cut r in (l :: b, t)
+  end.
+
+(* the first n blocks, numbered from bi *)
+Fixpoint spec_blocks (n bi : nat) (ls : list string) : list (nat * list string) :=
+  match n with
+  | O => []
+  | S k =>
+      let (b, t) := spec_cut ls in
+      (bi, b) :: match t with None => [] | Some r => spec_blocks k (S bi) r end
   end.
 
 Definition spec_cards (w : nat) (f : list string) : list (nat * list string) :=
-  let bl := firstn 3 (spec_blocks (map (spec_line w) f) []) in
-  List.concat
-    (map (fun nb => map (fun c => (fst nb, map rstrip_blanks c)) (spec_block_cards (snd nb)))
-         (combine (seq 0 3) bl)).
+  flat_map (fun nb => map (fun c => (fst nb, map rstrip_blanks c)) (spec_block_cards (snd nb)))
+           (spec_blocks 3 0 (map (spec_line w) f)).
+
+(* ------------------------------------------------------------------ the files on which MontePy's splitter is
+   claimed to follow these rules (C11_split_agrees); every clause excludes one observed disagreement, each shown
+   by a _refuted theorem in Properties/C11.v.  Executable, so that the harness can evaluate it on real files.
+     per line: ends with LF, otherwise printable ASCII or tabs; fits the limit including the LF (MontePy cuts at
+       w characters counting the LF); a 'c' that is the first non-blank of the line is not at or beyond column 6
+       (MontePy's is_comment accepts it at any column if a blank follows, and at column 6 whatever follows);
+     data lines: no '#' in columns 1-5 (MontePy raises UnsupportedFeature: vertical format); the line is continued
+       by '&' exactly when it ends in " &" (no blanks after the '&', no '&' at the end of a '$' comment);
+     comment lines: do not end in " &", and do not directly follow a line continued by '&';
+     blocks: no block consists of comment lines only; nothing but blank lines after the third block. *)
+Definition printable (a : ascii) : bool :=
+  let n := nat_of_ascii a in
+  orb (andb (Nat.leb 32 n) (Nat.leb n 126)) (Ascii.eqb a tab).
+
+Fixpoint body_ok (l : string) : bool :=
+  match l with
+  | EmptyString => false
+  | String a EmptyString => Ascii.eqb a nl
+  | String a r => andb (printable a) (body_ok r)
+  end.
+
+(* the first non-blank character is a c at index >= 5 that MontePy would take for a comment mark *)
+Fixpoint late_c_from (k : nat) (s : string) : bool :=
+  match s with
+  | EmptyString => false
+  | String a r =>
+      if is_blank a then late_c_from (S k) r
+      else andb (orb (Ascii.eqb a "c"%char) (Ascii.eqb a "C"%char))
+                (andb (Nat.leb 5 k)
+                      (orb (Nat.eqb k 5) (match r with EmptyString => true | String b _ => is_blank b end)))
+  end.
+Definition late_c (x : string) : bool := late_c_from 0 x.
+
+Definition amp_suffix (x : string) : bool := ends_with (String sp (String "&"%char "")) x.
+
+Fixpoint wf_from (w bi : nat) (first amp cm : bool) (f : list string) : bool :=
+  match f with
+  | [] => negb (andb first cm)
+  | l :: r =>
+      let x := spec_line w l in
+      andb (body_ok l) (andb (Nat.leb (String.length (expandtabs TABSIZE l)) w)
+      (if all_blank x then andb (negb (andb first cm)) (wf_from w (S bi) true false false r)
+       else andb (Nat.ltb bi 3) (andb (negb (late_c x))
+        (if spec_comment x then andb (negb amp) (andb (negb (amp_suffix x)) (wf_from w bi first false true r))
+         else andb (negb (contains "#"%char (takeS 5 x)))
+              (andb (Bool.eqb (spec_amp x) (amp_suffix x)) (wf_from w bi false (spec_amp x) cm r)))))))
+  end.
+
+Definition wf_lines (w : nat) (f : list string) : bool := wf_from w 0 true false false f.
 
 (* ================================================================== wire
    lines travel hex-encoded, joined by ',' ; "-" is the empty list
      data <w> <bt> <hexbytes>     read_data on the cleaned lines of the bytes (a sub-file)
      file <w> <hexbytes>          whole top-level file
      spec <w> <hexbytes>          spec_cards on the cleaned lines after the front matter
+     wf <w> <hexbytes>            wf_lines on the cleaned lines after the front matter
      iscomment <hex>   clean <hex>   expand <hex>   lines <hexbytes> *)
 Definition show_input (i : input) : string :=
   show_nat (i_bt i) ++ ":" ++ show_nat (i_start i) ++ ":" ++ show_list hex_encode (i_lines i).
@@ -416,6 +476,11 @@ Definition run_Lines (req : string) : string :=
           | [] => "-"
           | cs => join ";" (map show_card cs)
           end
+      | None => "parse:err"
+      end
+  | ["wf"; w; h] =>
+      match parse_nat w with
+      | Some W => if wf_lines W (f_rest (read_front_matters (file_lines (hex_decode h)))) then "1" else "0"
       | None => "parse:err"
       end
   | ["iscomment"; h] => if is_comment (hex_decode h) then "1" else "0"
